@@ -181,4 +181,118 @@ Section FieldFacts.
           destruct (negb (xorb (sgn0 u) (sgn0 (tv1 * u * y1)))); apply (cancel_nz (D * D * D)); try exact HD3; nsatzT.
     Qed.
   End SSWU.
+
+  (* NonZeroPointMapper.Map (P-256): the fractions are x/1, y/1 of an sswu output *)
+  Section NonZeroMap.
+    Variables (A B Z : F) (mulByA mulByB : F -> F) (sqrt_ratio : F -> F -> bool * F) (sgn0 : F -> bool).
+    Hypothesis mulByA_spec : forall x, mulByA x = A * x.
+    Hypothesis mulByB_spec : forall x, mulByB x = B * x.
+    Hypothesis A_nz : A <> 0.
+    Hypothesis Z_nz : Z <> 0.
+    Hypothesis sqrt_ratio_ok : sqrt_ratio_spec Z sqrt_ratio.
+    Hypothesis exceptional_is_square : forall n d, d <> 0 ->
+      n * (A * Z * (A * Z) * (A * Z)) = d * ((B * B + A * (A * Z * (A * Z))) * B + B * (A * Z * (A * Z) * (A * Z))) ->
+      fst (sqrt_ratio n d) = true.
+
+    Theorem nonzero_map_on_curve : forall u,
+      let '(xn, xd, yn, yd) := NonZeroPointMapper_Map K mulByA mulByB Z sqrt_ratio sgn0 u in
+      xd = 1 /\ yd = 1 /\ yn * yn = xn * xn * xn + A * xn + B.
+    Proof.
+      intros u. unfold NonZeroPointMapper_Map.
+      pose proof (sswu_on_curve A B Z mulByA mulByB sqrt_ratio sgn0 mulByA_spec mulByB_spec A_nz Z_nz
+                    sqrt_ratio_ok exceptional_is_square u) as H.
+      destruct (Mappers.sswu K mulByA mulByB Z sqrt_ratio sgn0 u) as [x y].
+      repeat split; exact H.
+    Qed.
+  End NonZeroMap.
+
+  (* ================================================================================== *)
+  (*  Elligator 2 for curve25519: elligator2/curve25519.go                               *)
+  (* ================================================================================== *)
+  Section Elligator2.
+    Variables (c2 c3 J : F) (sgn0 : F -> bool).
+    Hypothesis c3_sq : c3 * c3 = - (1).
+    Hypothesis c2_sq : c2 * c2 = (1 + 1) * c3.
+    (* 2 u^2 + 1 <> 0: -1/2 is not a square in F_(2^255-19) (RFC 9380 G.2.1, step 3 comment) *)
+    Hypothesis xd_nz : forall u, u * u + u * u + 1 <> 0.
+    (* Fermat's little theorem for the exponent c4 = (p-5)/8: x^(2 c4 + 1) = x^((p-1)/4) is a 4th root of 1 *)
+    Hypothesis pow_c4_fermat : forall x, x <> 0 ->
+      let w := fpow K x curve25519Elligator2C4 in
+      (w * w * x) * (w * w * x) * (w * w * x) * (w * w * x) = 1.
+
+    Theorem elligator2_on_curve : forall u,
+      let '(xn, xd, y, yd) := mapToCurveElligator2Curve25519 K c2 c3 J sgn0 u in
+      yd = 1 /\ xd <> 0 /\
+      y * y * (xd * xd * xd) = xn * xn * xn + J * (xn * xn) * xd + xn * (xd * xd).
+    Proof.
+      intros u. unfold mapToCurveElligator2Curve25519. cbv zeta.
+      set (t := u * u + u * u). set (xd := t + 1). set (x1n := - J). set (gxd := xd * xd * xd).
+      set (gx1 := (J * t * x1n + xd * xd) * x1n).
+      set (X := gxd * gxd * (gxd * gxd) * (gxd * gxd * gxd * gx1)).
+      set (w := fpow K X curve25519Elligator2C4). set (y11 := w * (gxd * gxd * gxd * gx1)).
+      assert (Hxd : xd <> 0) by (unfold xd, t; apply xd_nz).
+      assert (Hgxd : gxd <> 0) by (unfold gxd; apply nz_mul; [apply nz_mul|]; exact Hxd).
+      assert (Hg1 : gx1 = x1n * x1n * x1n + J * (x1n * x1n) * xd + x1n * (xd * xd)).
+      { unfold gx1, xd, x1n. ring. }
+      split; [reflexivity|]. split; [exact Hxd|].
+      destruct (feqb K (y11 * y11 * gxd) gx1) eqn:E1.
+      - (* g(x1) is a square and y11 its root: e3 is the same test *)
+        rewrite E1. apply feqb_eq in E1. fold gxd.
+        destruct (xorb true (sgn0 y11)).
+        + transitivity (y11 * y11 * gxd); [ring|]. rewrite E1. exact Hg1.
+        + rewrite E1. exact Hg1.
+      - set (y12 := y11 * c3).
+        destruct (feqb K (y12 * y12 * gxd) gx1) eqn:E3.
+        + apply feqb_eq in E3. fold gxd.
+          destruct (xorb true (sgn0 y12)).
+          * transitivity (y12 * y12 * gxd); [ring|]. rewrite E3. exact Hg1.
+          * rewrite E3. exact Hg1.
+        + (* x = x2 = 2 u^2 x1 *)
+          set (x2n := x1n * t). set (y21 := y11 * u * c2). set (y22 := y21 * c3). set (gx2 := gx1 * t).
+          assert (Hg2 : gx2 = x2n * x2n * x2n + J * (x2n * x2n) * xd + x2n * (xd * xd)).
+          { unfold gx2, gx1, x2n, xd, x1n. ring. }
+          fold gxd.
+          assert (Hy2 : forall y2, y2 * y2 * gxd = gx2 ->
+                    forall b : bool, (if b then - y2 else y2) * (if b then - y2 else y2) * gxd
+                                     = x2n * x2n * x2n + J * (x2n * x2n) * xd + x2n * (xd * xd)).
+          { intros y2 H b. rewrite <- Hg2, <- H. destruct b; ring. }
+          destruct (feqb K (y21 * y21 * gxd) gx2) eqn:E2.
+          * apply feqb_eq in E2. apply (Hy2 y21 E2).
+          * apply Hy2.
+            apply feqb_neq in E1. apply feqb_neq in E2. apply feqb_neq in E3.
+            assert (Hgx1 : gx1 <> 0).
+            { intro H0. apply E1. unfold y11. rewrite H0. ring. }
+            assert (HX : X <> 0).
+            { unfold X. repeat apply nz_mul; assumption. }
+            pose proof (pow_c4_fermat X HX) as Hr. cbv zeta in Hr. fold w in Hr.
+            set (r := w * w * X) in Hr.
+            assert (Hy11 : y11 * y11 * gxd = r * gx1). { unfold y11, r, X. ring. }
+            assert (Hroots : (r - 1) * ((r + 1) * ((r - c3) * (r + c3))) = 0).
+            { transitivity (r * r * r * r - 1 - (r * r - 1) * (c3 * c3 + 1)); [ring|]. rewrite Hr, c3_sq. ring. }
+            destruct (f_integral _ _ Hroots) as [R|R]; [|destruct (f_integral _ _ R) as [R'|R']; [|destruct (f_integral _ _ R') as [R''|R'']]].
+            -- (* r = 1: y11 was a root of g(x1) *)
+               exfalso. apply E1. rewrite Hy11. apply sub_eq0 in R. rewrite R. ring.
+            -- (* r = -1: y12 = y11*sqrt(-1) was a root of g(x1) *)
+               exfalso. apply E3.
+               assert (Hrc : r = - (1)) by (transitivity (r + 1 - 1); [ring|rewrite R'; ring]).
+               unfold y12. transitivity (c3 * c3 * (y11 * y11 * gxd)); [ring|].
+               rewrite Hy11, c3_sq, Hrc. ring.
+            -- (* r = sqrt(-1): y22 is a root of g(x2) *)
+               apply sub_eq0 in R''. unfold y22, y21, gx2.
+               transitivity (c3 * c3 * (c2 * c2) * (u * u) * (y11 * y11 * gxd)); [ring|].
+               rewrite Hy11, c2_sq, R''.
+               transitivity (c3 * c3 * (c3 * c3) * (gx1 * (u * u + u * u))); [ring|]. rewrite c3_sq. unfold t. ring.
+            -- (* r = -sqrt(-1): y21 was a root of g(x2) *)
+               exfalso. apply E2.
+               assert (Hrc : r = - c3) by (transitivity (r + c3 - c3); [ring|rewrite R''; ring]).
+               unfold y21, gx2.
+               transitivity (c2 * c2 * (u * u) * (y11 * y11 * gxd)); [ring|].
+               rewrite Hy11, c2_sq, Hrc.
+               transitivity (- (c3 * c3) * (gx1 * (u * u + u * u))); [ring|]. rewrite c3_sq. unfold t. ring.
+    Qed.
+  End Elligator2.
+
+  (* ================================================================================== *)
+  (*  cofactor clearing, relative to the abstract group hypothesis                       *)
+  (* ================================================================================== *)
 End FieldFacts.
